@@ -35,7 +35,7 @@ EXPLANATION = ("Volume sizes are symbolic integers (1..10^9 per axis); the real 
                "pyramid-computation-admission clauses are evaluated on the generated (concrete) fields of each path.")
 BOUNDS = {"quick": "one axis size symbolic 1..10^9 (each axis in turn), the two other sizes from {1,3,7,70,100,129,4096,10^9}; 20 resolution triples (isotropic, ratios 1..16, fractional, 800:800:1200-like) x target chunk "
                    "sizes {1,2,16,64} x max_scales {None,2}",
-          "thorough": "60 resolution triples x target chunk sizes {1,2,4,8,16,32,64,128,256} x max_scales {None,1,2,5}"}
+          "thorough": "the quick resolution triples plus 12 random ones x target chunk sizes {1,2,8,32,64,256} x max_scales {None,1,5} x 3 symbolic-axis variants; all 12 decades x 5 ratio patterns for the keys harness"}
 OUTSIDE = ["float rounding inside math.log2 at ratios within 2^-50 of a rounding boundary and inside length*factor",
            "resolutions below 1 pm (no length unit exists: the generator raises NotImplementedError by design)",
            "symbolic (non-enumerated) resolutions"]
@@ -50,11 +50,11 @@ def configs(tier, seed):
     rnd = random.Random(seed)
     res = list(RES)
     if tier == "thorough":
-        for _ in range(40):
+        for _ in range(12):
             base = rnd.choice((0.01, 0.5, 1.0, 3.0, 40.0, 1000.0, 123456.0))
             res.append(tuple(base * rnd.choice((1, 1, 1.3, 2, 3, 4, 7, 8, 16)) for _ in range(3)))
-    tcss = (1, 2, 16, 64) if tier == "quick" else (1, 2, 4, 8, 16, 32, 64, 128, 256)
-    mss = (None, 2) if tier == "quick" else (None, 1, 2, 5)
+    tcss = (1, 2, 16, 64) if tier == "quick" else (1, 2, 8, 32, 64, 256)
+    mss = (None, 2) if tier == "quick" else (None, 1, 5)
     out = []
     oth = [(1, 1), (1000000000, 3), (100, 70), (7, 1000000000), (4096, 4096), (129, 2)]
     n = 0
@@ -63,7 +63,7 @@ def configs(tier, seed):
             if tier == "quick" and t == 1 and ri % 5:
                 continue      # target chunk size 1 is a known finding on every path: 4 representatives in the quick tier
             for ms in mss:
-                for v in range(2 if tier == "quick" else 9):
+                for v in range(2 if tier == "quick" else 3):
                     n += 1
                     out.append(dict(harness="structure", res=list(r), tcs=t, max_scales=ms, sym_axis=(n + v) % 3,
                                     others=list(oth[(n * 7 + v) % len(oth)]), cost=2, wall=900, max_paths=20000))
